@@ -23,6 +23,10 @@ TRANSLATORS = ["gen_consts"]
 DRIVER = "drv_c09"
 
 KNOWN_DEFECT_KEY = "c09:unnormalised-2site-truncation"
+# candidate (reported, not listed in known_findings.json): a canonical initial state with psi.factor != 1 keeps factor and norm
+# through '2site' sweeps.  The random generator therefore does not draw initial states with a factor; `initial_factor_probe`
+# exercises the input on every run and records the outcome (flagged only once the key is listed).
+FACTOR_DEFECT_KEY = "c09:initial-factor-2site"
 
 
 class CaseTimeout(BaseException):
@@ -475,10 +479,10 @@ def random_state(ops, I, seed, n, D_total, dtype):
     return mps.random_mps(I, D_total=D_total, dtype=dtype, **kw)
 
 
-def known_defect_listed():
+def known_defect_listed(key=KNOWN_DEFECT_KEY):
     try:
         d = json.load(open(os.path.join(os.path.dirname(os.path.dirname(os.path.dirname(os.path.abspath(__file__)))), "known_findings.json")))
-        return any(k.get("property") == "C09" and k.get("key") == KNOWN_DEFECT_KEY for k in d.get("findings", []))
+        return any(k.get("property") == "C09" and k.get("key") == key for k in d.get("findings", []))
     except Exception:
         return False
 
@@ -541,6 +545,8 @@ def run_dmrg(case, monitor=True, precompute=None, nsplit=None):
     psi = random_state(ops, I, case["psi_seed"], case["n"], case["D_total"], case["dtype"])
     if case["canon"]:
         psi.canonize_(to="first")
+    if case.get("psi_factor") is not None:   # only used by initial_factor_probe
+        psi = case["psi_factor"] * psi
     project = []
     for s in case["proj_seeds"]:
         phi = random_state(ops, I, s, case["n"], max(2, case["D_total"] // 2), case["dtype"])
@@ -909,6 +915,33 @@ def known_defect_probe(ctx):
             ctx.notes.append("candidate defect (not flagged because it is not listed in known_findings.json): " + what)
 
 
+def initial_factor_probe(ctx):
+    """a canonical initial state carrying a scalar factor (2.5 * psi), one '2site' sweep without truncation"""
+    case = {"kind": "trace", "family": "Spin12", "sym": "U1", "N": 4,
+            "terms": [t for i in range(3) for t in ([0.7, 0.0, [i, i + 1], ["sp", "sm"]], [0.7, 0.0, [i + 1, i], ["sp", "sm"]],
+                                                    [0.3, 0.0, [i, i + 1], ["z", "z"]])],
+            "nsplit": 1, "n": 0, "D_total": 4, "dtype": "float64", "psi_seed": 1, "canon": True, "psi_factor": 2.5,
+            "methods": ["2site"], "opts_svd": {"D_total": 8, "tol": 1e-14}, "opts_eigs": {"hermitian": True, "ncv": 4, "which": "SR"},
+            "precompute": False, "nproj": 0, "proj_seeds": [], "Schmidt_tol": None}
+    res = run_dmrg(case, monitor=False)
+    if res["err"] or not res["outs"]:
+        return
+    v = dense_mps(res["psi"], res["ops"])
+    nrm = float(np.linalg.norm(v))
+    bad = abs(nrm - 1) > 1e-10
+    ctx.count("initial_factor_probe:" + ("unnormalised" if bad else "normalised"))
+    if bad:
+        Hd = dense_H(res)
+        what = (f"dmrg_(method='2site') started from a canonical state with factor 2.5 (2.5 * psi) returns a state of norm {nrm!r} "
+                f"with psi.factor={res['psi'].factor!r}; reported energy {res['outs'][-1].energy!r} vs Rayleigh quotient {_ray(Hd, v)!r} "
+                f"(method='1site' resets the factor to 1)")
+        if known_defect_listed(FACTOR_DEFECT_KEY):
+            ctx.fail("oracle", FACTOR_DEFECT_KEY, what, case=case, concrete=True)
+        else:
+            ctx.notes.append("candidate defect (not flagged because it is not listed in known_findings.json; initial states with "
+                             "a factor are not drawn by the random generator for this reason): " + what)
+
+
 def run(ctx):
     rng = ctx.rng
     quick = ctx.quick
@@ -954,6 +987,7 @@ def run(ctx):
     if broken and not [f for f in ctx.findings if f.concrete and f.key != KNOWN_DEFECT_KEY]:
         search(ctx, broken, 45 if quick else 400)
     known_defect_probe(ctx)
+    initial_factor_probe(ctx)
 
 
 def search(ctx, broken, budget_s):
@@ -984,6 +1018,8 @@ def replay(ctx, obj):
         return run(ctx)
     if f.get("key") == KNOWN_DEFECT_KEY:
         return known_defect_probe(ctx)
+    if f.get("key") == FACTOR_DEFECT_KEY:
+        return initial_factor_probe(ctx)
     variant = case.pop("variant", None)
     if case.get("kind") == "project" and case.get("ground_case"):
         g = case["ground_case"]
